@@ -1,6 +1,7 @@
 //! E3: corpora of generated receiver crates compiled against /repo and driven with generated inputs.
 
 mod drive;
+mod elem;
 mod emit;
 mod gen;
 mod input;
@@ -116,7 +117,7 @@ fn mistakes_count(rng: &mut Rng, prop: &str) -> usize {
 
 /// One generated input for a top-level receiver.
 fn make_case(recvs: &[Recv], r: &Recv, rng: &mut Rng, prop: &str) -> Option<Case> {
-    let it = Interp { recvs };
+    let it = Interp::new(recvs);
     let mut ig = InputGen::new(recvs);
     let spacing = rng.below(6) as u8;
     let mut mistakes = vec![];
@@ -216,8 +217,12 @@ fn make_case(recvs: &[Recv], r: &Recv, rng: &mut Rng, prop: &str) -> Option<Case
                     Attr {
                         name,
                         kind: AttrKind::NameValue("\"nv\"".into()),
+                        gid: 0,
                     },
                 );
+                for (i, a) in attrs.iter_mut().enumerate() {
+                    a.gid = i;
+                }
                 mistakes.push("name-value-attribute");
             }
             let tail = element_tail(rng, tr);
@@ -308,9 +313,78 @@ pub fn profile_enum() -> Profile {
     }
 }
 
+pub fn profile_magic() -> Profile {
+    Profile {
+        name: "magic",
+        traits: vec![Trait::DeriveInput, Trait::DeriveInput, Trait::Field, Trait::Variant, Trait::TypeParam],
+        p_enum: 0,
+        p_nested: 1,
+        magic: true,
+        supports: true,
+        forward_attrs: true,
+        flatten: false,
+        options: true,
+        body_recv: true,
+        max_depth: 1,
+    }
+}
+
+/// C16 / C18 / C07: structured input elements for receivers with magic fields, shape sets and bodies
+fn magic_cases(recvs: &[Recv], r: &Recv, rng: &mut Rng, prop: &str, _iter: usize) -> Vec<Case> {
+    let it = Interp::new(recvs);
+    let mut ig = InputGen::new(recvs);
+    let mut mistakes = vec![];
+    let mut eg = elem::ElemGen {
+        ig: &mut ig,
+        recvs,
+        p_mistake: if prop == "C16" { 2 } else { 3 },
+    };
+    let mut e = eg.element(rng, r, &mut mistakes);
+    let rendered = elem::render(&mut e, rng.below(6) as u8);
+    let expected = it.element_full(r, &e, &rendered.attr_texts, &rendered.text);
+    let entry = match (&e, r.tr) {
+        (elem::Element::Field(f), _) if f.name.is_none() => "from_tuple_field",
+        (_, tr) => tr.entry(),
+    };
+    let shape = match &e {
+        elem::Element::Item(i) => match &i.body {
+            elem::EBody::Struct(fs) => format!("item/struct-{}/{}", fs.shape(), fs.list().len().min(6)),
+            elem::EBody::Enum(vs) => format!("item/enum/{}", vs.len().min(6)),
+            elem::EBody::Union(_) => "item/union".to_string(),
+        },
+        elem::Element::Field(f) => format!("field/{}", if f.name.is_some() { "named" } else { "tuple" }),
+        elem::Element::Variant(v) => format!("variant/{}/{}", v.fields.shape(), v.disc.is_some()),
+        elem::Element::TypeParam(t) => format!("type-param/{}/{}", t.bounds.len(), t.default.is_some()),
+    };
+    vec![Case {
+        entry,
+        src: rendered.text.clone(),
+        expected,
+        ranges: rendered.ranges,
+        attr_ranges: rendered.attr_ranges,
+        mistakes,
+        shape,
+        group: None,
+        items: None,
+    }]
+}
+
+fn magic_plan() -> Plan {
+    Plan {
+        tag: "magic",
+        profile: profile_magic(),
+        programs: (160, 1200),
+        per_program: (120, 500),
+        cases: magic_cases,
+        min_nontrivial: 200,
+        adopt: &["C01", "C02"],
+        suggestions: true,
+    }
+}
+
 /// C08: one item sequence, its single-attribute form and several partitions into attributes
 fn partition_cases(recvs: &[Recv], r: &Recv, rng: &mut Rng, _prop: &str, iter: usize) -> Vec<Case> {
-    let it = Interp { recvs };
+    let it = Interp::new(recvs);
     let mut ig = InputGen::new(recvs);
     let mut items = ig.struct_items(rng, r, 0);
     let mut mistakes = vec![];
@@ -330,6 +404,7 @@ fn partition_cases(recvs: &[Recv], r: &Recv, rng: &mut Rng, _prop: &str, iter: u
                 vec![Attr {
                     name: r.attr_names[0].clone(),
                     kind: AttrKind::List(items.clone(), 0),
+                    gid: 0,
                 }]
             }
         } else {
@@ -358,7 +433,7 @@ fn partition_cases(recvs: &[Recv], r: &Recv, rng: &mut Rng, _prop: &str, iter: u
 /// C09: the grid of every variant name (plus near-miss, skipped and unknown names) x every form
 fn enum_grid_cases(recvs: &[Recv], r: &Recv, rng: &mut Rng, _prop: &str, iter: usize) -> Vec<Case> {
     let Shape::Enum(vs) = &r.shape else { return general_cases(recvs, r, rng, "C09", iter) };
-    let it = Interp { recvs };
+    let it = Interp::new(recvs);
     let mut ig = InputGen::new(recvs);
     let mut names: Vec<(String, Option<&Variant>)> = vs.iter().map(|v| (variant_name(r, v), Some(v))).collect();
     let base = names[iter % names.len()].0.clone();
@@ -502,6 +577,79 @@ fn enum_grid_cases(recvs: &[Recv], r: &Recv, rng: &mut Rng, _prop: &str, iter: u
     }]
 }
 
+/// C07: a token-level mutation of a rendered input (stays lexically valid; may stop being meta syntax)
+fn mutate_tokens(src: &str, rng: &mut Rng) -> Option<String> {
+    use proc_macro2::{Delimiter, Group, TokenStream, TokenTree};
+    let ts: TokenStream = syn::parse_str(src).ok()?;
+    fn soup(rng: &mut Rng) -> Vec<TokenTree> {
+        let pool = ["=", ",", "!!!", "1 2", "::", "\"s\"", "99999999999999999999999999999999999999999999", "1e999", "b\"x\"", "'c'", "-", "fn", "self", "r#type", "(a, b)", "[1; 2]", "{ x }", "true", "a::b::<C>", "|x| x", "..", "?", "#", "-1.5e-300", "0xffff_ffff_ffff_ffff_ffff", "c\"c\""];
+        let n = rng.range(1, 3);
+        let mut out = vec![];
+        for _ in 0..n {
+            if let Ok(t) = syn::parse_str::<TokenStream>(*rng.pick(&pool)) {
+                out.extend(t);
+            }
+        }
+        out
+    }
+    fn walk(ts: TokenStream, rng: &mut Rng, budget: &mut i32, depth: usize) -> TokenStream {
+        let mut v: Vec<TokenTree> = ts.into_iter().collect();
+        // recurse into a random group first
+        let groups: Vec<usize> = v.iter().enumerate().filter(|(_, t)| matches!(t, TokenTree::Group(_))).map(|(i, _)| i).collect();
+        if !groups.is_empty() && rng.chance(3, 5) && depth < 6 {
+            let gi = *rng.pick(&groups);
+            if let TokenTree::Group(g) = &v[gi] {
+                let inner = walk(g.stream(), rng, budget, depth + 1);
+                let delim = if rng.chance(1, 10) { *rng.pick(&[Delimiter::Parenthesis, Delimiter::Bracket, Delimiter::Brace]) } else { g.delimiter() };
+                v[gi] = TokenTree::Group(Group::new(delim, inner));
+            }
+            if *budget <= 0 {
+                return v.into_iter().collect();
+            }
+        }
+        *budget -= 1;
+        match rng.below(6) {
+            0 if !v.is_empty() => {
+                let i = rng.below(v.len());
+                v.remove(i);
+            }
+            1 => {
+                let i = rng.below(v.len() + 1);
+                for (k, t) in soup(rng).into_iter().enumerate() {
+                    v.insert((i + k).min(v.len()), t);
+                }
+            }
+            2 if !v.is_empty() => {
+                let i = rng.below(v.len());
+                let t = v[i].clone();
+                v.insert(i, t);
+            }
+            3 if !v.is_empty() => {
+                let i = rng.below(v.len());
+                let s = soup(rng);
+                v.splice(i..i + 1, s);
+            }
+            4 => {
+                // deep nesting
+                let mut inner: TokenStream = syn::parse_str("a").unwrap();
+                for _ in 0..rng.range(20, 100) {
+                    let mut t: TokenStream = syn::parse_str("a").unwrap();
+                    t.extend([TokenTree::Group(Group::new(Delimiter::Parenthesis, inner))]);
+                    inner = t;
+                }
+                let i = rng.below(v.len() + 1);
+                for (k, t) in inner.into_iter().enumerate() {
+                    v.insert((i + k).min(v.len()), t);
+                }
+            }
+            _ => v.reverse(),
+        }
+        v.into_iter().collect()
+    }
+    let mut budget = 1 + rng.below(3) as i32;
+    Some(walk(ts, rng, &mut budget, 0).to_string())
+}
+
 /// reply with everything that legitimately differs between renderings removed
 fn stripped(reply: &Value) -> String {
     if let Some(ok) = reply.get("ok") {
@@ -588,6 +736,40 @@ fn run_corpus(args: &Args, prop: &'static str, plan: Plan) -> i32 {
                                 }
                             };
                             let obs = parse_reply(&reply);
+                            if prop == "C07" {
+                                // hostile variants of the same input: only totality is judged
+                                for _ in 0..2 {
+                                    let Some(hsrc) = mutate_tokens(&case.src, &mut rng) else { continue };
+                                    c.eval();
+                                    match drv.call(*id, case.entry, &hsrc) {
+                                        drive::Reply::Value(v) => match parse_reply(&v) {
+                                            Observed::Panic { msg, at } => {
+                                                let class = if at.contains("shard") || !at.contains('/') { format!("panic:generated-code:{}", msg.split_whitespace().take(5).collect::<Vec<_>>().join("_")) } else { format!("panic:{}", vfcommon::short_loc(&at)) };
+                                                let src = rsrc.get_or_insert_with(|| recv_source(recvs, *id)).clone();
+                                                c.violation(format!("C07:{class}"), format!("{} panicked on `{hsrc}`: {msg} at {at}", r.name()), json!({"receiver": src, "entry": case.entry, "input": hsrc}));
+                                            }
+                                            Observed::Unparsed(_) => c.count("hostile.not_parseable_by_syn"),
+                                            Observed::Ok(_) => {
+                                                c.count("hostile.ok");
+                                                c.nontrivial(&(*id, "hostile-ok", hsrc.len() % 97));
+                                            }
+                                            Observed::Err { leaves, .. } => {
+                                                c.count("hostile.err");
+                                                c.nontrivial(&(*id, "hostile-err", leaves.iter().map(|l| l.family).collect::<String>()));
+                                            }
+                                            Observed::Died(_) => {}
+                                        },
+                                        drive::Reply::Died(st) => {
+                                            let src = rsrc.get_or_insert_with(|| recv_source(recvs, *id)).clone();
+                                            c.violation("C07:driver-died", format!("the receiver process died ({st}) on `{hsrc}`"), json!({"receiver": src, "entry": case.entry, "input": hsrc}));
+                                            match drive::Driver::spawn(&target, &sh.name) {
+                                                Ok(d) => drv = d,
+                                                Err(_) => return c,
+                                            }
+                                        }
+                                    }
+                                }
+                            }
                             if let Observed::Unparsed(_) = obs {
                                 c.discarded += 1;
                                 continue;
@@ -847,6 +1029,11 @@ fn main() {
             suggestions: true,
                 },
             ),
+            Some("magic") => {
+                let mut p = magic_plan();
+                p.adopt = &[];
+                run_corpus(&args, "C07", p)
+            }
             Some("enum") => run_corpus(
                 &args,
                 "C07",
@@ -881,6 +1068,12 @@ fn main() {
             ),
             _ => run_general(&args, "C17"),
         },
+        "C16" => run_corpus(&args, "C16", magic_plan()),
+        "C18" => {
+            let mut p = magic_plan();
+            p.adopt = &["C01", "C02", "C07"];
+            run_corpus(&args, "C18", p)
+        }
         "C08" => run_corpus(
             &args,
             "C08",
